@@ -12,6 +12,8 @@ import (
 	"crypto/sha1"
 	"crypto/sha256"
 	"crypto/x509"
+	"encoding/base64"
+	"encoding/pem"
 	"errors"
 	"fmt"
 	"io"
@@ -87,9 +89,6 @@ func c18Hist(c *Ctx, svc *rsa.PublicKey, pkts []c18Pkt, steps []string) {
 	// the value of the external call rsa.VerifyPKCS1v15(services key, SHA-256(text of key i), signature j)
 	var okp []string
 	for i, p := range pkts {
-		if classes[i] != "rsa" {
-			continue
-		}
 		sum := sha256.Sum256(goText(p.key))
 		for j, q := range pkts {
 			if rsa.VerifyPKCS1v15(active, crypto.SHA256, sum[:], q.sig) == nil {
@@ -167,6 +166,46 @@ func c18Hist(c *Ctx, svc *rsa.PublicKey, pkts []c18Pkt, steps []string) {
 			case "ss":
 				val.Signature = bytes.Clone(pkts[idx].sig)
 				obs = append(obs, "set")
+			case "kw": // serialise a player's own key pair: KeyPairResp.WriteTo
+				var k user.KeyPairResp
+				k.KeyPair.PublicKey = string(pem.EncodeToMemory(&pem.Block{Type: "RSA PUBLIC KEY", Bytes: pkts[idx].key}))
+				k.PublicKeySignatureV2 = base64.StdEncoding.EncodeToString(pkts[idx].sig)
+				k.ExpiresAt = times[idx]
+				var err error
+				if p, _ := guard(func() { _, err = k.WriteTo(io.Discard) }); p {
+					obs = append(obs, "kw=panic")
+				} else if err != nil {
+					obs = append(obs, "kw=err")
+				} else {
+					obs = append(obs, "kw=ok")
+				}
+			case "pw": // PublicKey.WriteTo on the value itself
+				var err error
+				if p, _ := guard(func() { _, err = val.WriteTo(io.Discard) }); p {
+					obs = append(obs, "pw=panic")
+				} else if err != nil {
+					obs = append(obs, "pw=err")
+				} else {
+					obs = append(obs, "pw=ok")
+				}
+			case "pp": // Property codec round trip
+				var b bytes.Buffer
+				pr := user.Property{Name: "textures", Value: "dmFsdWU=", Signature: "c2ln"}
+				var back user.Property
+				var err error
+				if p, _ := guard(func() {
+					if _, err = pr.WriteTo(&b); err == nil {
+						_, err = back.ReadFrom(&b)
+					}
+				}); p {
+					obs = append(obs, "pp=panic")
+				} else if err != nil {
+					obs = append(obs, "pp=err")
+				} else {
+					obs = append(obs, "pp=ok")
+				}
+			case "vs": // VerifySignature directly on packet idx
+				obs = append(obs, "vs="+boolObs(func() bool { return user.VerifySignature(bytes.Clone(pkts[idx].key), bytes.Clone(pkts[idx].sig)) })+"#"+arg)
 			case "v":
 				id := ident(&val)
 				obs = append(obs, "v="+boolObs(val.Verify)+"@"+id)
@@ -232,8 +271,12 @@ func c18GenHist(c *Ctx, svcA, svcB, profA, profB hkey) {
 			c18Hist(c, svc.pub, ps, []string{"rf:0", "v", "sk:1", "v", "sk:0", "v", "sk:n", "v"})
 			c18Hist(c, svc.pub, ps, []string{"rf:0", "v", "v", "rf:3", "v", "rf:1", "v", "rf:2", "v", "rf:1", "v"})
 			c18Hist(c, svc.pub, ps, []string{"rf:2", "v", "sk:1", "ss:1", "v", "se:3", "v", "se:0", "v"})
+			// other entry points of the package between the verifies: the services key must stay what it was
+			c18Hist(c, svc.pub, ps, []string{"rf:0", "v", "kw:1", "rf:1", "v", "vs:1", "kw:0", "v"})
+			c18Hist(c, svc.pub, ps, []string{"kw:1", "pw", "pp", "rf:1", "v", "vs:1", "vs:0", "rf:0", "pw", "v"})
 			if bi == 0 {
 				c18Hist(c, nil, ps, []string{"rf:0", "v", "rf:1", "v"}) // embedded key: nothing is genuine
+				c18Hist(c, nil, ps, []string{"kw:1", "rf:1", "v", "vs:1", "kw:0", "rf:0", "v"})
 			}
 		}
 		full := []c18Pkt{genuine, badDer, badDerOld, notRsa, expired2}
@@ -275,6 +318,9 @@ func c18GenHist(c *Ctx, svcA, svcB, profA, profB hkey) {
 					steps = append(steps, fmt.Sprintf("se:%d", j))
 				default:
 					steps = append(steps, "rf:x")
+				}
+				if c.R.Intn(5) == 0 {
+					steps = append(steps, []string{fmt.Sprintf("kw:%d", j), "pw", "pp", fmt.Sprintf("vs:%d", j)}[c.R.Intn(4)])
 				}
 			}
 			steps = append(steps, "v")
